@@ -103,7 +103,9 @@ def admissible_non_id(c, earlier_fulls):
             return set()
         ks = set()
         for f, k in earlier_fulls:
-            fv = {getattr(f.metadata, n, None) for n in NAME_FIELDS} - {None, ""}
+            # a full citation introduced by a single name ('Nobelman, 508 U.S. 324') carries that name as its
+            # antecedent guess: it is the case's name as far as the document tells
+            fv = {getattr(f.metadata, n, None) for n in tuple(NAME_FIELDS) + ("antecedent_guess",)} - {None, ""}
             if fv & vals:
                 ks.add(k)
         return ks if len(ks) == 1 else set()
